@@ -1862,9 +1862,14 @@ def units(tier, seed):
     # ---- size ladder (+ layout variants)
     lad = LADDER if quick else LADDER + LADDER_X
 
-    def groups(maxsum):
+    # dense ranges (every size): box-plot / violin columns in both tiers, everything in thorough
+    lad_box = sorted(set(lad) | set(range(7, 131 if quick else 301)))
+    if not quick:
+        lad = lad_box
+
+    def groups(maxsum, sizes=None):
         out, cur = [], []
-        for n in lad:
+        for n in (lad if sizes is None else sizes):
             if cur and sum(cur) + n > maxsum:
                 out.append(cur)
                 cur = []
@@ -1872,7 +1877,7 @@ def units(tier, seed):
         if cur:
             out.append(cur)
         return out
-    for g in groups(1100):
+    for g in groups(1100, lad_box):
         us.append({"kind": "boxlad", "ns": g, "seed": seed})
     for d in (1, 2, 3, 5):
         for g in groups(2100):
